@@ -51,7 +51,8 @@ check('C06', TV,
       'verified compositionally: IPCone.to_soc() is abstracted to its power-cone meaning in the compiled program '
       '(wiring lemma, QF_NRA) and that meaning is established for the real to_soc() output of every recorded weight '
       'vector (log-linear QF_LRA + boundary QF_NRA). Layer B: the real solve() point satisfies the user constraints '
-      'and get() equals the directly evaluated objective.',
+      'and get() equals the directly evaluated objective.'
+      ' Also through the conic model class used on its own (rsome.gcp.Model), built in one go and with a formulation after every st() call; logarithm members whose value changes sign on the box (a lost positive factor is unsound only there); exactly singular quad() matrices with a guard against non-finite coefficients in the compiled program.',
       'Trusted: oracle definitions of atoms; harness stub of IPCone.to_soc (listed; justified by the tower theorem '
       'obligations run in the same check); monotonicity of log; for exp atoms only congruence and positivity of exp are '
       'used (sound for unsat). KL divergence, LMI/logdet/rootdet are outside.',
@@ -94,7 +95,8 @@ check('C11', TV,
       'infeasible and unbounded members) is solved on a fresh model through every installed interface that supports it; '
       'for each pair z3 decides the certificate against the exact-rational compiled program: a truly feasible point '
       '(integrality included) exists within tolerance of the returned vector; no feasible point is better than the '
-      'reported objective; for programs z3 proves infeasible/unbounded the interface reports no solution and get() raises.',
+      'reported objective; for programs z3 proves infeasible/unbounded the interface reports no solution and get() raises.'
+      " Mixed-integer programs unbounded along an integer ray carry a z3 certificate (feasible point + integral improving recession direction); an interface returning an 'optimum' for them is a violation.",
       'Trusted: z3; the exact optimum of MILPs is computed by solver-guided enumeration of integer assignments. The '
       'interface code and C libraries run concretely (in a child process with a time limit); exp-cone programs are '
       'outside; tolerance 1e-6 (LP/MILP), 1e-4 (interior-point SOC).',
@@ -108,7 +110,8 @@ check('C14', TV,
       'that the user-level certificate holds: objective gradient = dual-weighted constraint and bound gradients, '
       'dual-weighted right-hand sides = objective value, signs by direction of optimisation, results shaped like their '
       'constraints. Concrete half: the (pi, upi, lpi) of each dual-capable interface (SciPy, Gurobi, ECOS) give a valid '
-      'certificate whose value equals the exact optimum computed by z3. Objective fronts: min/max, rsome.lp, and the same objective stated with minmax()/maxmin() over a random variable that does not matter.',
+      'certificate whose value equals the exact optimum computed by z3. Objective fronts: min/max, rsome.lp, and the same objective stated with minmax()/maxmin() over a random variable that does not matter.'
+      ' Constraints written as 2-D expressions must return duals in that shape.',
       'Trusted: the KKT convention of the interfaces (stated in evidence.assumptions); z3; the harness\'s own reading of '
       'the user model from the generator spec. Bounded: <= 4 variables, <= 4 constraint arrays, one upper/lower bound '
       'constraint per entry.',
@@ -119,7 +122,8 @@ check('C16', TV,
       'The text of the real lp_export() is parsed by an independent LP-format reader and the DataFrame of the real '
       'show() is converted back; z3 decides that each denotes exactly the formula that is solved: the feasible sets '
       '(linear rows, second-order-cone rows, bounds) have empty symmetric difference, the objectives are equal as linear '
-      'forms, and General/Binary/Type data induce the same domains.',
+      'forms, and General/Binary/Type data induce the same domains.'
+      ' Binary columns are read under both conventions of LP readers (explicit Bounds entries intersected with [0,1] or kept); programs with exponential cones must be refused by the export.',
       'Trusted: the harness LP reader (LP-format defaults, float() for decimal strings), z3. Float formatting itself runs '
       'concretely on enumerated coefficient values (negative, zero, 1e-9, 1e9, 1/3, infinite bounds, empty rows).',
       'SMT equivalence (xor of feasible sets, QF_LRA/QF_NRA) between formula and parsed export',
@@ -152,7 +156,9 @@ check('C12', TV,
       'arrays at assigned (or omitted = zero) realisations, that Convex.__call__ equals the atom definition times '
       'multiplier plus offset on every concolic path (abs/max/sqrt branches explored exhaustively), and that dro '
       'per-scenario series carry the label of their scenario for every partition and order of adapt() calls; objective '
-      'read-back follows the sense. Every query is evaluated twice on the same objects; a read-back that raises where NumPy indexing succeeds is a violation; realisations given through slices; bi-affine dro calls with adaptive affine parts; convex calls per scenario; power and perspective atoms.',
+      'read-back follows the sense. Every query is evaluated twice on the same objects; a read-back that raises where NumPy indexing succeeds is a violation; realisations given through slices; bi-affine dro calls with adaptive affine parts; convex calls per scenario; power and perspective atoms.'
+      ' Expectations inside or added to convex atoms (dro): refused, or the compiled program has the exact optimum of the same model with the expectation taken outside the atom (both compiled by RSOME, optima by z3). Products of decision rules with random variables are tried after every chain of scalings / negations / additions / slices and with adaptation declared through slices, pre-created slices and expressions built before adapt().'
+      ' Views of bi-affine dro arrays (indexing, reshape, T), slices of slices and expression objects built before adapt() was declared are called with realisations as well.',
       'Trusted: harness stub scipy.sparse @ object arrays (dense); EXP/LOG uninterpreted and shared with the oracle; '
       'coefficient tables (float arrays with NaN) are read with a sentinel solution. N/G atoms (numpy.linalg.norm on '
       'objects) and DecConvex transcendental calls are outside.',
@@ -166,7 +172,8 @@ check('C13', TV,
       'DecRule.to_affine() with symbolic columns and z3 decides: undeclared components have identically zero '
       'coefficients, scenarios of one event share the rule, scenarios of different events and distinct declared '
       'coefficients are independent, declared dependencies can be non-zero; mixed partitions give the common refinement; '
-      'illegal declarations raise. Also: random variables declared after adapt() or after the first use, decisions declared after the adaptive one with other partitions, shifted integer scenario labels given as labels or as Scen objects, slice objects created before adapt(), and a list of illegal declarations that must raise together with their legal neighbours that must not.',
+      'illegal declarations raise. Also: random variables declared after adapt() or after the first use, decisions declared after the adaptive one with other partitions, shifted integer scenario labels given as labels or as Scen objects, slice objects created before adapt(), and a list of illegal declarations that must raise together with their legal neighbours that must not.'
+      ' The read-back of the declared dependence (values per event, coefficient tables per scenario rule) is decided on the same partition family.',
       'Trusted: CrossHair 0.0.110 + z3; bounded to 2-4 scenarios and 3 random components. The illegal-declaration list '
       'and refinement labels are finite concrete probes (auxiliary, reported separately in evidence).',
       'CrossHair symbolic execution of pure-Python kernels + SMT over symbolic rule coefficients',
@@ -217,7 +224,8 @@ check('C09', TV,
       'under E(maxof) and in a plain constraint, interleaved ambiguity sets, repeated formulation) are replayed on the real '
       'API only; the program compiled after the history must satisfy the C01/C02 (ro) resp. C03/C04 (dro) obligations '
       'against the semantics of the declared model - inclusion for all compiled-feasible points and realisations / '
-      'distributions, exists-forall projection per block - and have the same exact optimum as a fresh build. Decoy sets are tight and rotate through every constraint list of the shared support model (bounds, linear, abs/1-/inf-norm, 2-norm, p-norm, exp-type); further histories: integer variables declared after a formulation, one constraint object used with two forall() sets, ambiguity sets changed after a solve with nothing else declared.',
+      'distributions, exists-forall projection per block - and have the same exact optimum as a fresh build. Decoy sets are tight and rotate through every constraint list of the shared support model (bounds, linear, abs/1-/inf-norm, 2-norm, p-norm, exp-type); further histories: integer variables declared after a formulation, one constraint object used with two forall() sets, ambiguity sets changed after a solve with nothing else declared.'
+      ' Random variables declared after a set was compiled (ro: exact optimum against the build that declares them first; dro: history late_rvar_after_solve); one piecewise constraint object used with two sets.',
       'Trusted as C01-C04. Equality of denoted sets, not of matrices, is the oracle (histories may reorder or add columns).',
       'SMT translation validation of the program compiled after each history + exact optimum vs fresh build',
       'DESIGN.md section 4 C09')
@@ -238,7 +246,8 @@ check('C17', TV,
       'four patterns; z3 decides that each compiled program has the same feasible set, objective and exact optimum as the '
       'program of the same model built alone. Auxiliary (finite, exhaustive over model kinds): 14 misuse patterns - '
       'cross-model constraint / variable / random variable / set / objective set, second objective, non-scalar objective, '
-      'reading unsolved / infeasible / unbounded models, ambiguity() after constraints - must raise.',
+      'reading unsolved / infeasible / unbounded models, ambiguity() after constraints - must raise.'
+      " Solver options given to one solve (params=) must not change a later solve of another model: A, B with options, A again on every installed interface, exact optimum of A by z3, Gurobi's process-wide defaults compared before/after; type strings with letters other than C/B/I must raise.",
       'Trusted: z3. The misuse matrix is a concrete finite probe (reported separately in evidence).',
       'SMT equivalence (xor, QF_LRA) of interleaved vs alone compiled programs + exact optimum',
       'DESIGN.md section 4 C17')
